@@ -29,7 +29,10 @@ MODELLED_NOT_VERIFIED = [
     "C18: random.Random's own algorithms (expovariate, gauss, shuffle, sample) are not modelled - the draws are inputs of the model; "
     "floating point is not modelled: times/rates are integers in a common unit (exact for the dyadic scripted stream), "
     "the genuine random.Random stream is judged by the oracle with relative tolerance 1e-9",
-    "C18: GSA (gsa_ntax), num_extinct_tips/num_total_tips stops, retained extinct tips and a caller-supplied start tree are outside the statement and the model",
+    "C18: GSA (gsa_ntax), num_extinct_tips/num_total_tips stops, retained extinct tips, discrete_birth_death_tree (constant rates) and a "
+    "caller-supplied start tree (tree=) are outside the statement's quantifier but modelled (ops gsa, bdx, dbd, bdt), compared per case and "
+    "covered by theorems; the GSA crash (TypeError when a clade cut away by the slice went extinct) is predicted by the model, not judged",
+    "C18: retained extinct tips are recognised on the implementation by the library's own is_extinct attribute (None on extinct tips)",
 ]
 EXPLANATION = ("Theorems (Props/C18.lean) hold for EVERY draw list, i.e. every behaviour of the generator. wic_*: weighted_index_choice picks "
                "an index in range, of positive weight, characterised by cumulative sums, and always picks one for 0 <= u < 1. "
@@ -48,6 +51,11 @@ EXPLANATION = ("Theorems (Props/C18.lean) hold for EVERY draw list, i.e. every b
                "well-kinded draws always complete a pass; two valid shuffles complete the run), bd_sinv_step. contained_leaves: the gene "
                "tree's leaves are a permutation of the sampled genes. Well-formedness and (for GT) bifurcation are type-level facts of "
                "the model, judged on the implementation by the oracle. "
+               "Extension round: XInv / bd_xinv / bd_loop_xinv / bd_stop_counts (num_extinct_tips, num_total_tips reached exactly), "
+               "bd_result_retained(+_counts) (retained extinct tips: none deeper than the extant ones, all leaves labelled distinctly, counts per "
+               "rule), GoodStart / goodStart_default (tree= continuation: every bd_* theorem now holds from any admissible start tree; the restart "
+               "restores the start tree), gsa_selects_last (the slice loop always returns the last slice), gsa_result (cut back to a slice = the "
+               "tree as it stood then: exactly N equidistant extant leaves), dbd_result (discrete simulator: equidistant, >= ntax leaves). "
                "Determinism (clause d) is definitional in the model (functions of arguments and draw list); its content is the tie: "
                "tripwires on GLOBAL_RNG / random.*, equal-state double runs with shaken memory layout, fresh-interpreter runs.")
 
@@ -125,7 +133,7 @@ class ScriptRng(object):
     def uniform(self, a, b):
         v = a + (b - a) * (2 * self.pick(512) + 1) / 1024.0
         fr = Fraction(v)
-        self.log.append("f%d/%d" % (fr.numerator, fr.denominator))
+        self.log.append(("u%d/%d" if (a, b) == (0, 1) else "f%d/%d") % (fr.numerator, fr.denominator))
         return v
 
     def randint(self, a, b):
@@ -265,12 +273,27 @@ def scaled(x):
     return str(f.numerator)
 
 
-def model_text(tree, leafname):
-    """same text as the Lean renderers: leaf `L<name>:<len>`, internal `(<len> child child ...)`"""
+def is_extinct_leaf(nd):
+    """the library's own flag on a retained extinct tip (currently None; True would be the documented value)"""
+    v = getattr(nd, "is_extinct", False)
+    return v is None or v is True
+
+
+def model_text(tree, leafname, mark_extinct=False, unit=None):
+    """same text as the Lean renderers: leaf `L<name>:<len>` (`X…` for a retained extinct tip), internal `(<len> child child ...)`;
+    lengths in units of 1/SC, or plain integers (generations) with unit=1"""
+    def ln(x):
+        if unit == 1:
+            f = Fraction(0) if x is None else Fraction(x)
+            if f.denominator != 1:
+                raise ValueError("length %r is not a whole number of generations" % (x,))
+            return str(f.numerator)
+        return scaled(x)
+
     def go(nd):
         if not kids(nd):
-            return "L%s:%s" % (leafname(nd), scaled(nd.edge.length))
-        return "(%s %s)" % (scaled(nd.edge.length), " ".join(go(c) for c in kids(nd)))
+            return "%s%s:%s" % ("X" if mark_extinct and is_extinct_leaf(nd) else "L", leafname(nd), ln(nd.edge.length))
+        return "(%s %s)" % (ln(nd.edge.length), " ".join(go(c) for c in kids(nd)))
     return go(tree.seed_node)
 
 
@@ -313,6 +336,41 @@ def species_tree(dendropy, sp):
     return tree, leaves
 
 
+def start_tree(dendropy, st):
+    """the `tree=` argument: st = {"par": [...], "len": [...]}; pre-order numbering, binary, one taxon per leaf"""
+    n = len(st["par"])
+    leaves = [i for i in range(n) if i not in st["par"]]
+    tns = dendropy.TaxonNamespace(["s%d" % i for i in leaves])
+    nodes = [dendropy.Node() for _ in range(n)]
+    for i in range(n):
+        nodes[i].edge.length = float(Fraction(st["len"][i]))
+        if i in leaves:
+            nodes[i].taxon = tns.get_taxon("s%d" % i)
+        if st["par"][i] >= 0:
+            nodes[st["par"][i]].add_child(nodes[i])
+    tree = dendropy.Tree(taxon_namespace=tns, seed_node=nodes[0])
+    tree.is_rooted = True
+    return tree
+
+
+def gen_start(rng, k):
+    """an ultrametric binary start tree with k leaves, quarter-unit lengths"""
+    shape = tu.rand_shape(rng, k, p_poly=0.0, p_unary=0.0)
+    par, height = [], []
+
+    def go(sh, parent):
+        i = len(par)
+        par.append(parent)
+        height.append(Fraction(0))
+        hs = [go(c, i) for c in sh]
+        if hs:
+            height[i] = max(height[j] for j in hs) + Fraction(rng.randint(1, 4), 4)
+        return i
+    go(shape, -1)
+    lens = ["0"] + [str(height[par[i]] - height[i]) for i in range(1, len(par))]
+    return {"par": par, "len": lens}
+
+
 def run_sim(dendropy, case, rng):
     """one call of the simulator under test; returns (tree, aux)"""
     from dendropy.model import birthdeath, coalescent
@@ -324,15 +382,29 @@ def run_sim(dendropy, case, rng):
             kw["num_extant_tips"] = p["n"]
         if p.get("max_time") is not None:
             kw["max_time"] = float(Fraction(p["max_time"]))
+        if p.get("nx") is not None:
+            kw["num_extinct_tips"] = p["nx"]
+        if p.get("nt") is not None:
+            kw["num_total_tips"] = p["nt"]
+        if p.get("retain"):
+            kw["is_retain_extinct_tips"] = True
         tns = mk_namespace(dendropy, p.get("ns"))
         if tns is not None:
             kw["taxon_namespace"] = tns
         b, d = float(Fraction(p["b"])), float(Fraction(p["d"]))
+        if p.get("start") is not None:
+            kw.pop("taxon_namespace", None)
+            kw["tree"] = start_tree(dendropy, p["start"])
         if sim == "bd":
             fn = treesim.birth_death_tree if p.get("via", "treesim") == "treesim" else birthdeath.birth_death_tree
             return fn(b, d, birth_rate_sd=float(Fraction(p.get("bsd", "0"))), death_rate_sd=float(Fraction(p.get("dsd", "0"))),
                       rng=rng, **kw), None
         return birthdeath.fast_birth_death_tree(b, d, rng=rng, **kw), None
+    if sim == "gsa":
+        tns = mk_namespace(dendropy, p.get("ns"))
+        kw = {} if tns is None else {"taxon_namespace": tns}
+        return birthdeath.birth_death_tree(float(Fraction(p["b"])), float(Fraction(p["d"])), num_extant_tips=p["n"], gsa_ntax=p["g"],
+                                           rng=rng, **kw), None
     if sim == "dbd":
         try:
             return treesim.discrete_birth_death_tree(float(Fraction(p["b"])), float(Fraction(p["d"])),
@@ -538,8 +610,25 @@ def model_line(case, log, tree, aux):
             return None
         mt = None if p.get("max_time") is None else int(Fraction(p["max_time"]) * SC)
         n0 = 0 if p.get("ns") is None else p["ns"][1]
+        if p.get("start") is not None:
+            st = p["start"]
+            m = len(st["par"])
+            n0 = len([i for i in range(m) if i not in st["par"]])
+            head = ["bdt", opt(p.get("n")), opt(mt), str(rate_int(p["b"])), str(rate_int(p["d"])), str(n0), str(m)] + \
+                   [str(x) for x in st["par"]] + [scaled(Fraction(x)) for x in st["len"]]
+            return " ".join(head + log), model_text(tree, by_acc)
+        if sim == "bd" and (p.get("nx") is not None or p.get("nt") is not None or p.get("retain")):
+            head = ["bdx", opt(p.get("n")), opt(mt), opt(p.get("nx")), opt(p.get("nt")), "1" if p.get("retain") else "0",
+                    str(rate_int(p["b"])), str(rate_int(p["d"])), str(n0)]
+            return " ".join(head + log), model_text(tree, by_acc, mark_extinct=bool(p.get("retain")))
         head = [sim, opt(p.get("n")), opt(mt), str(rate_int(p["b"])), str(rate_int(p["d"])), str(n0)]
         return " ".join(head + log), model_text(tree, by_acc)
+    if sim == "dbd":
+        if Fraction(p.get("bsd", "0")) or Fraction(p.get("dsd", "0")):
+            return None
+        head = ["dbd", str(rate_int(p["b"])), str(rate_int(p["d"])), str(RS), str(p["n"]), "-", "1" if p["repeat"] else "0"]
+        want = "extinct" if aux == "extinct" else "ok " + model_text(tree, by_acc, unit=1)
+        return " ".join(head + log), ("RAW", want)
     if sim == "pb":
         return " ".join(["pb", str(p["ns"][1])] + log), model_text(tree, by_acc)
     if sim == "king":
@@ -817,6 +906,11 @@ def one_case(ctx, dendropy, case, pending, compare=True):
             ctx.fail("hang", "%s did not return within 30 s" % describe(case), case)
             return None
         except Exception as e:
+            if sim == "gsa" and isinstance(e, TypeError) and "no parent" in str(e):
+                # the General Sampling Approach is outside the property statement; its pruning loop is known to raise when a
+                # clade cut away by the slice selection went entirely extinct.  The model predicts exactly when (`raises`).
+                runs.append(("RAISES", None, rng, gw.touched()))
+                continue
             if case.get("d_only"):
                 # evolving rates may leave the admissible domain (negative rates): whatever the code then does, it must do
                 # it reproducibly and with the supplied generator only
@@ -846,6 +940,26 @@ def one_case(ctx, dendropy, case, pending, compare=True):
     # ---- clause (d): no stray generator, equal states -> identical results
     if touched or runs[1][3]:
         problems.append(("global_rng/" + (case["params"]["fn"] if sim == "rv" else sim), "an explicit rng was supplied, yet the call also used: %s" % " and ".join(touched or runs[1][3])))
+    if sim == "gsa":
+        outs = [r[0] if isinstance(r[0], str) else canon(r[0], exact) for r in runs]
+        if outs[0] != outs[1]:
+            problems.append(("nondeterministic", "two runs from equal generator states differ: %s vs %s" % (outs[0][:300], outs[1][:300])))
+        ctx.case([sim, case["params"], case["rng"]], True, kind="gsa/" + case["rng"]["kind"] + ("/raises" if outs[0] == "RAISES" else ""))
+        for kind, what in problems:
+            ctx.fail(kind, "%s: %s" % (describe(case), what), rec)
+        if not isinstance(res, str):
+            # outside the statement: recorded, not judged
+            rd = root_dists(res, exact)
+            if len(rd) != case["params"]["n"] or not all(close(x, rd[0], exact) for x in rd):
+                ctx.count("gsa_result_not_N_equidistant_tips")
+        if compare and exact and not problems:
+            p = case["params"]
+            n0 = 0 if p.get("ns") is None else p["ns"][1]
+            line = " ".join(["gsa", str(p["n"]), str(p["g"]), str(rate_int(p["b"])), str(rate_int(p["d"])), str(n0)] + log)
+            tns = None if isinstance(res, str) else res.taxon_namespace
+            want = "raises" if isinstance(res, str) else "ok " + model_text(res, lambda nd: str(tns.accession_index(nd.taxon)))
+            pending.append((line, rec, ("RAW", want)))
+        return res
     if case.get("d_only"):
         outs = [r[0] if isinstance(r[0], str) else canon(r[0], False) for r in runs]
         if outs[0] != outs[1]:
@@ -877,12 +991,30 @@ def one_case(ctx, dendropy, case, pending, compare=True):
         o_shape(tree, problems)
         p = case["params"]
         if sim in ("bd", "fbd"):
-            if p.get("n") is not None and p.get("max_time") is None and nl != p["n"]:
-                problems.append(("tip_count", "asked for %d extant tips, tree has %d leaves" % (p["n"], nl)))
-            if p.get("n") is not None and nl > p["n"]:
-                problems.append(("tip_count", "asked for at most %d extant tips, tree has %d leaves" % (p["n"], nl)))
+            lv = leaves_of(tree.seed_node)
+            rd = root_dists(tree, exact)
+            if p.get("retain"):
+                n_dead = len([l for l in lv if is_extinct_leaf(l)])
+                live = [x for l, x in zip(lv, rd) if not is_extinct_leaf(l)]
+                dead = [x for l, x in zip(lv, rd) if is_extinct_leaf(l)]
+            else:
+                n_dead, live, dead = 0, rd, []
+            n_live = len(live)
+            rules = [k for k in ("n", "nx", "nt", "max_time") if p.get(k) is not None]
+            if p.get("n") is not None and ((rules == ["n"] and n_live != p["n"]) or n_live > p["n"]):
+                problems.append(("tip_count", "num_extant_tips=%d (rules %s): tree has %d extant leaves" % (p["n"], rules, n_live)))
+            if p.get("retain") and p.get("nx") is not None and ((rules == ["nx"] and n_dead != p["nx"]) or n_dead > p["nx"]):
+                problems.append(("tip_count", "num_extinct_tips=%d (rules %s): tree retains %d extinct leaves" % (p["nx"], rules, n_dead)))
+            if p.get("nt") is not None:
+                if p.get("retain") and ((rules == ["nt"] and nl != p["nt"]) or nl > p["nt"]):
+                    problems.append(("tip_count", "num_total_tips=%d (rules %s): tree has %d leaves" % (p["nt"], rules, nl)))
+                if n_live > p["nt"]:
+                    problems.append(("tip_count", "num_total_tips=%d: tree has %d extant leaves" % (p["nt"], n_live)))
             o_taxa(tree, problems)
-            o_equidistant(tree, exact, problems)
+            if live and not all(close(x, live[0], exact) for x in live):
+                problems.append(("equidistant", "extant tips are at root distances %s" % sorted(set(str(x) for x in live))[:6]))
+            if live and dead and max(dead) > (live[0] if exact else live[0] * (1 + 1e-9) + 1e-12):
+                problems.append(("equidistant", "a retained extinct tip lies deeper (%s) than the extant tips (%s)" % (max(dead), live[0])))
             nontrivial = nl >= 4 or bool(case.get("_restarts"))
         elif sim == "dbd":
             nontrivial = nl >= 4     # outside clauses (a)-(c) (generation-wise growth may overshoot): clause (d) only
@@ -951,6 +1083,10 @@ def flush(ctx, pending):
         if m is None:
             continue
         ctx.compared()
+        if isinstance(want, tuple):
+            if m.strip() != want[1]:
+                ctx.disagree(line.split(" ", 1)[0], {"line": line if len(line) < 3000 else line[:3000] + "...", "case": rec}, want[1], m.strip())
+            continue
         if want is None:
             if m.strip() != "err arg":
                 ctx.disagree(line.split(" ", 1)[0] + "/refusal", {"line": line, "case": rec}, "raises (inadmissible argument)", m.strip())
@@ -1003,6 +1139,27 @@ def gen_bd(rng, max_n, sim="bd"):
     p["ns"] = gen_ns(rng, n)
     if sim == "bd":
         p["via"] = rng.choice(["treesim", "birthdeath"])
+        if "n" in p and "max_time" not in p and rng.random() < 0.2:
+            # continuing a given (ultrametric) tree through `tree=`
+            k = rng.randint(1, max(1, min(4, p["n"])))
+            p["start"] = gen_start(rng, k)
+            p["ns"] = None
+        elif rng.random() < 0.3:
+            # the other stopping rules and retained extinct tips (outside the statement's quantifier; modelled and proved)
+            rr = rng.random()
+            if rr < 0.35 and d > 0:
+                p.pop("n", None)
+                p.pop("max_time", None)
+                p["nx"] = rng.randint(1, 4)
+            elif rr < 0.6:
+                p.pop("n", None)
+                p.pop("max_time", None)
+                p["nt"] = rng.randint(1, min(12, max_n))
+            elif rr < 0.75 and d > 0:
+                p["nx"] = rng.randint(1, 4)
+            elif rr < 0.85:
+                p["nt"] = rng.randint(1, min(12, max_n))
+            p["retain"] = rng.random() < 0.7
     force = None
     if d > 0 and rng.random() < 0.3:
         # force the restart-after-total-extinction path: the single initial lineage dies k times, possibly after a birth
@@ -1037,6 +1194,14 @@ def gen_evolving(rng):
     else:
         spec = gen_script(rng, gauss_signed=True, limit=4000)
     return {"sim": "bd", "params": p, "rng": spec, "d_only": True}
+
+
+def gen_gsa(rng, max_n):
+    b = Fraction(rng.choice(RATES))
+    d = b * rng.choice([Fraction(1, 4), Fraction(1, 2), Fraction(3, 4), Fraction(0), Fraction(7, 8)])
+    n = rng.randint(1, min(8, max_n))
+    p = {"b": str(b), "d": str(d), "n": n, "g": n + rng.randint(1, 6), "ns": gen_ns(rng, n)}
+    return {"sim": "gsa", "params": p, "rng": gen_rngspec(rng, 0.25)}
 
 
 def gen_pb(rng, max_n):
@@ -1247,19 +1412,21 @@ def run(ctx):
         elif r < 0.90:
             case = {"sim": "dbd", "params": {"b": rng.choice(["1/4", "3/8", "1/2"]), "d": rng.choice(["0", "1/8", "1/4"]),
                                              "n": rng.randint(2, 12), "repeat": rng.random() < 0.5},
-                    "rng": {"kind": "real", "seed": rng.getrandbits(32)}}
+                    "rng": gen_rngspec(rng, 0.4)}
         else:
             case = gen_rv(rng)
         if rng.random() < 0.10:
             case = gen_evolving(rng)
         if rng.random() < 0.05:
             case = gen_hist(rng)
+        if rng.random() < 0.05:
+            case = gen_gsa(rng, max_n)
         if rng.random() < 0.004:
             # the refusal stream: an empty namespace
             sim0 = rng.choice(["pb", "king"])
             case = {"sim": sim0, "params": {"ns": ["sp", 0], "b": "1", "pop": 1}, "rng": gen_script(rng), "expect_error": True}
         one_case(ctx, dendropy, case, pending)
-        if case["sim"] not in ("rv", "cont_hist") and not case.get("expect_error") and len(fresh) < ctx.pick(16, 60) and rng.random() < 0.2:
+        if case["sim"] not in ("rv", "cont_hist", "gsa") and not case.get("expect_error") and len(fresh) < ctx.pick(16, 60) and rng.random() < 0.2:
             fresh.append(case)
         if len(pending) >= 300:
             flush(ctx, pending)
